@@ -144,6 +144,87 @@ class FaultInjector(Monitor):
             raise OSError(errno.ENOSPC, "injected: no space left on device")
 
 
+class _FullDiskFile:
+    """A file that was opened (and truncated) all right, on a disk that has no room for data."""
+
+    def __init__(self, real):
+        object.__setattr__(self, "_real", real)
+
+    def write(self, data):
+        raise OSError(errno.ENOSPC, "injected: no space left on device")
+
+    def writelines(self, lines):
+        raise OSError(errno.ENOSPC, "injected: no space left on device")
+
+    def __enter__(self):
+        return self
+
+    def __exit__(self, *a):
+        self._real.close()
+        return False
+
+    def __getattr__(self, name):
+        return getattr(self._real, name)
+
+
+class WriteFaultInjector:
+    """The k-th file opened for writing below root (1-based) opens normally - an existing file
+    is truncated by that - but every write to it fails with ENOSPC: what a full disk does."""
+
+    def __init__(self, root, k):
+        self.root = os.path.realpath(root)
+        self.k = k
+        self.n = 0
+        self.fired = None
+
+    def _below(self, path):
+        try:
+            rp = os.path.realpath(path)
+        except (OSError, TypeError, ValueError):
+            return False
+        return rp == self.root or rp.startswith(self.root + os.sep)
+
+    def _hit(self, path):
+        if self.fired is None and isinstance(path, (str, bytes, os.PathLike)) and self._below(os.fsdecode(path)):
+            self.n += 1
+            if self.n == self.k:
+                self.fired = ("open", [os.fsdecode(path)])
+                return True
+        return False
+
+    def __enter__(self):
+        import builtins
+        self._open, self._fdopen = builtins.open, os.fdopen
+        inj = self
+
+        def _writing(mode):
+            return isinstance(mode, str) and any(ch in mode for ch in "wax+")
+
+        def open_(file, mode="r", *a, **kw):
+            f = inj._open(file, mode, *a, **kw)
+            if _writing(mode) and not isinstance(file, int) and inj._hit(file):
+                return _FullDiskFile(f)
+            return f
+
+        def fdopen_(fd, mode="r", *a, **kw):
+            f = inj._fdopen(fd, mode, *a, **kw)
+            if _writing(mode):
+                try:
+                    path = os.readlink("/proc/self/fd/%d" % fd)
+                except OSError:
+                    path = None
+                if path and inj._hit(path):
+                    return _FullDiskFile(f)
+            return f
+        builtins.open, os.fdopen = open_, fdopen_
+        return self
+
+    def __exit__(self, *a):
+        import builtins
+        builtins.open, os.fdopen = self._open, self._fdopen
+        return False
+
+
 def gate_name(event, paths, root):
     """Abstract a mutating (or index/ref reading) event of a git/vdir store to a gate name
     (DESIGN appendix A)."""
